@@ -142,7 +142,7 @@ def gen_values(cfg, seed):
     blk = block_of(sizes)
     off_ = offsets(sizes)
     out = {}
-    real_only = cfg["repr"] == "float"
+    real_only = cfg["repr"] in ("float", "int")
     for order in cfg["support"]:
         order = tuple(order)
         rng = np.random.default_rng([int(seed), int(cfg.get("vset", 0)), 977, *order])
@@ -220,6 +220,20 @@ def library_input(cfg, values):
     elif rep == "float":
         conv = lambda m: np.array(m.real, dtype=float)  # noqa: E731
         h0 = np.diag(np.array([float(e[0]) for e in E]))
+    elif rep == "int":  # integer-typed arrays (values are small integers)
+        conv = lambda m: np.array(np.rint(m.real), dtype=np.int64)  # noqa: E731
+        h0 = np.diag(np.array([int(e[0]) for e in E], dtype=np.int64))
+    elif rep == "fortran-ro":  # Fortran-ordered, read-only buffers
+
+        def conv(m):
+            a = np.asfortranarray(np.array(m, dtype=complex))
+            a.flags.writeable = False
+            return a
+
+        h0 = np.diag(np.array([complex(e[0], e[1]) for e in E]))
+        if not cplxE:
+            h0 = h0.real.astype(float)
+        h0.flags.writeable = False
     elif rep in ("csr", "csrm-blocks", "coom-blocks"):
         conv = lambda m: sparse.csr_array(np.array(m, dtype=complex))  # noqa: E731
         d = np.array([complex(e[0], e[1]) for e in E])
